@@ -269,6 +269,8 @@ class Gen:
             at += ' transform="%s"' % rtransform(rng)
         if rng.random() < 0.3:
             at += emit_attrs(rng, self.F, [(k, v) for k, v in paint_attrs(rng, self.F) if k in ("fill", "opacity")])
+        if self.F.clips and self.clip_ids and rng.random() < 0.25:
+            at += ' clip-path="url(#%s)"' % rng.choice(self.clip_ids)
         return '<use xlink:href="#%s"%s/>' % (t, at)
 
     def nested(self, depth):
@@ -348,7 +350,10 @@ class Gen:
         at = ""
         if self.F.transforms and rng.random() < 0.25:
             at += ' transform="%s"' % rtransform(rng)
-        if self.clip_ids and rng.random() < 0.2:
+        # a clipPath that is itself clipped carries no transform of its own here: whether that transform also moves
+        # the referenced clip is read differently by the specification text and by renderers (DESIGN §6), so it is
+        # not judged
+        if self.clip_ids and rng.random() < 0.2 and not at:
             at += ' clip-path="url(#%s)"' % rng.choice(self.clip_ids)
         self.clip_ids.append(i)
         return '<clipPath id="%s"%s>%s</clipPath>' % (i, at, kids)
